@@ -13,7 +13,7 @@ with open(_os.path.join(_os.path.dirname(_os.path.abspath(__file__)), "theorems_
 REGISTRY = {
     "C02": {
         "level": "proof",
-        "modules": ["CoCoVerif.Props.C02", "CoCoVerif.Props.C02Size"], "theorems": _T["C02"],
+        "modules": ["CoCoVerif.Props.C02", "CoCoVerif.Props.C02Size", "CoCoVerif.Props.C02Full", "CoCoVerif.Props.C02C03Final"], "theorems": _T["C02"],
         "rule": "cases = directed layout programs (ORG first / later / code before ORG, duplicate and undefined symbols, origins below $100), random "
                 "grammar-directed programs, README mutations, EQU/label matrix; on every accepted program the implementation's listing is re-checked: "
                 "image = concatenation, address(i+1) = address(i) + bytes(i), label value = listing address",
@@ -21,7 +21,7 @@ REGISTRY = {
     },
     "C03": {
         "level": "proof",
-        "modules": ["CoCoVerif.Props.C03", "CoCoVerif.Props.C03Width"], "theorems": _T["C03"],
+        "modules": ["CoCoVerif.Props.C03", "CoCoVerif.Props.C03Width", "CoCoVerif.Props.C03Full", "CoCoVerif.Props.C02C03Final"], "theorems": _T["C03"],
         "rule": "cases = all short/long branch mnemonics and label,PCR / [label,PCR] operands (1- and 2-byte opcodes) at distances around the 8-bit and 16-bit "
                 "limits forward and backward, label+-k forms, programs with several interdependent PCR statements, random programs; every branch / PCR "
                 "statement is decoded and (next address + displacement) mod 65536 compared with the target",
